@@ -299,13 +299,15 @@ pub struct Cfg {
     /// dedicated server app + client-only apps instead of full plugin groups on both sides
     pub split: bool,
     pub events: bool,
+    /// `ServerPlugin::mutations_timeout` in milliseconds (frames are 10 ms)
+    pub timeout_ms: u64,
 }
 
 impl Cfg {
     pub fn key(&self) -> String {
         format!(
-            "{:?}/{:?}/{:?}/track={}/rel={}/n={}/split={}/events={}",
-            self.vis, self.pol, self.auth, self.track as u8, self.rel as u8, self.nclients, self.split as u8, self.events as u8
+            "{:?}/{:?}/{:?}/track={}/rel={}/n={}/split={}/events={}/timeout={}ms",
+            self.vis, self.pol, self.auth, self.track as u8, self.rel as u8, self.nclients, self.split as u8, self.events as u8, self.timeout_ms
         )
     }
 }
@@ -314,12 +316,13 @@ impl Cfg {
 pub enum Role {
     Server,
     Client,
-    /// Client whose registrations differ by one extra rule (wrong protocol hash).
-    ClientMismatch,
+    /// Client whose registrations differ in one step (wrong protocol hash): 0 = one extra rule,
+    /// 1 = two rules swapped, 2 = a rule with another priority, 3 = an event not marked independent,
+    /// 4 = a trigger not marked independent (3 and 4 need events; they fall back to 0).
+    ClientMismatch(u8),
 }
 
 pub const FRAME_MS: u64 = 10;
-pub const MUTATIONS_TIMEOUT_MS: u64 = 200;
 
 pub fn mk_app(cfg: &Cfg, role: Role) -> App {
     let mut app = App::new();
@@ -341,7 +344,7 @@ pub fn mk_app(cfg: &Cfg, role: Role) -> App {
             Vis::Blacklist => VisibilityPolicy::Blacklist,
             Vis::Whitelist => VisibilityPolicy::Whitelist,
         },
-        mutations_timeout: Duration::from_millis(MUTATIONS_TIMEOUT_MS),
+        mutations_timeout: Duration::from_millis(cfg.timeout_ms),
     };
     app.add_plugins(MinimalPlugins);
     let mut group = RepliconPlugins.build().set(shared);
@@ -361,12 +364,26 @@ pub fn mk_app(cfg: &Cfg, role: Role) -> App {
     app.insert_resource(TimeUpdateStrategy::ManualDuration(Duration::from_millis(FRAME_MS)))
         .init_resource::<Log>();
 
-    if role == Role::ClientMismatch {
+    let variant = match role {
+        Role::ClientMismatch(v) if cfg.events || v < 3 => Some(v),
+        Role::ClientMismatch(_) => Some(0),
+        _ => None,
+    };
+    if variant == Some(0) {
         app.replicate::<Extra>();
     }
-    app.replicate::<Va>()
-        .replicate::<Vb>()
-        .replicate::<Sec>()
+    match variant {
+        Some(1) => {
+            app.replicate::<Vb>().replicate::<Va>();
+        }
+        Some(2) => {
+            app.replicate::<Va>().replicate_with_priority(5, RuleFns::<Vb>::default());
+        }
+        _ => {
+            app.replicate::<Va>().replicate::<Vb>();
+        }
+    }
+    app.replicate::<Sec>()
         .replicate::<Blob>()
         .replicate::<Imm>()
         .replicate_once::<Once>()
@@ -376,12 +393,18 @@ pub fn mk_app(cfg: &Cfg, role: Role) -> App {
     if cfg.events {
         app.add_server_event::<SEv>(Channel::Ordered)
             .add_server_event::<SEvU>(Channel::Unordered)
-            .add_server_event::<SInd>(Channel::Ordered)
-            .make_event_independent::<SInd>()
+            .add_server_event::<SInd>(Channel::Ordered);
+        if variant != Some(3) {
+            app.make_event_independent::<SInd>();
+        }
+        app
             .add_mapped_server_event::<SMap>(Channel::Ordered)
             .add_server_trigger::<STrig>(Channel::Ordered)
-            .add_server_trigger::<SIndTrig>(Channel::Ordered)
-            .make_trigger_independent::<SIndTrig>()
+            .add_server_trigger::<SIndTrig>(Channel::Ordered);
+        if variant != Some(4) {
+            app.make_trigger_independent::<SIndTrig>();
+        }
+        app
             .add_client_event::<CEv>(Channel::Ordered)
             .add_client_event::<CEvU>(Channel::Unreliable)
             .add_mapped_client_event::<CMap>(Channel::Ordered)
